@@ -73,8 +73,8 @@ def jobs(tier, seed):
                     # quick tier drives the chain with one particle there, thorough adds two particles
                     for N in ((1, 2) if (n == 1 or tier == "thorough") else (1,)):
                         for thr in (("0", "1") if n == 1 else ("1/2",)):
-                            if n == 2 and N == 2 and kern != "semi":
-                                continue
+                            if n == 2 and N == 2 and (kern != "semi" or outl):
+                                continue        # with outliers the whole-chain exploration exceeds 100000 paths
                             out.append({"name": f"chain-{kern}-n{n}-out{int(outl)}-subtree{sub}-N{N}-thr{thr}", "kind": "chain", "kernel": kern, "n": n,
                                         "outliers": outl, "subtree": sub, "N": N, "thr": thr, "burnin": 1, "iters": 1 if n == 2 else 2, "conc": True,
                                         "cost": 400 if (n == 2 and N == 2) else 5 * n, "budget_s": 6000 if (n == 2 and N == 2) else None})
